@@ -105,7 +105,7 @@ def _cmspec(rng, cfg):
 def generate(prop, run_seed, tier):
     rng = random.Random(run_seed)
     faulted = rng.random() < 0.6
-    all_faults = ["bad_depth", "bad_mapping", "bad_table", "bad_type", "evict"]
+    all_faults = ["bad_depth", "bad_mapping", "bad_table", "bad_type", "evict", "caller_mutates_result"]
     faults = sorted(rng.sample(all_faults, rng.randint(1, len(all_faults)))) if faulted else []
     cfg = {
         "dialect": rng.choice(DIALECTS),
@@ -173,6 +173,9 @@ def generate(prop, run_seed, tier):
                 k = rng.choice(["cols", "cols", "type", "type", "has", "find"])
                 if k == "cols":
                     op = {"k": "cols", "t": _tspec(rng, depth, cfg), "only_visible": rng.random() < 0.3}
+                    if "caller_mutates_result" in faults and rng.random() < 0.35:
+                        # the caller goes on to use the list it was handed as its own (sorts it, appends to it, empties it)
+                        op["mut"] = rng.choice(["append", "clear", "reverse", "pop"])
                 elif k in ("type", "has"):
                     op = {"k": k, "t": _tspec(rng, depth, cfg), "c": _cspec(rng, cfg)}
                 else:
@@ -285,7 +288,21 @@ def _apply(schema, op, cfg, force_normalize=None):
     if k == "add":
         return _canon(lambda: schema.add_table(_mk_table(op["t"], d), _mk_cm(op["cm"]), **_kw(op, cfg)))
     if k == "cols":
-        return _canon(lambda: schema.column_names(_mk_table(op["t"], d), only_visible=op["only_visible"], **_kw(op, cfg, force_normalize)))
+        def fc():
+            r = schema.column_names(_mk_table(op["t"], d), only_visible=op["only_visible"], **_kw(op, cfg, force_normalize))
+            snap = list(r)
+            m = op.get("mut")
+            if m and isinstance(r, list):
+                if m == "append":
+                    r.append("zz_caller")
+                elif m == "clear":
+                    r.clear()
+                elif m == "reverse":
+                    r.reverse()
+                elif r:
+                    r.pop()
+            return snap
+        return _canon(fc)
     if k == "type":
         return _canon(lambda: schema.get_column_type(_mk_table(op["t"], d), _mk_col(op["c"], d), **_kw(op, cfg, force_normalize)))
     if k == "has":
@@ -466,7 +483,7 @@ def execute(record, state=None):
     cfg = record["config"]
     ops = record["ops"]
     results = []
-    faults = {"bad_depth": 0, "bad_mapping": 0, "bad_table": 0, "bad_type": 0, "evict": 0, "failed_lookup": 0, "lookup_before_registration": 0}
+    faults = {"bad_depth": 0, "bad_mapping": 0, "bad_table": 0, "bad_type": 0, "evict": 0, "failed_lookup": 0, "lookup_before_registration": 0, "caller_mutates_result": 0}
     probes = {"lookup_then_update_same": 0, "lookup_then_ambiguous": 0, "quoted_then_unquoted_same_name": 0,
               "failed_add_then_lookup": 0, "eviction_fired": 0, "o3_checked": 0, "o2_checked": 0, "o1_checked": 0, "copies": 0,
               "call_dialect_lookup": 0}
@@ -523,6 +540,8 @@ def execute(record, state=None):
         results.append(got)
         if got[0] == "exc":
             faults["failed_lookup"] += 1
+        if op.get("mut") and got[0] == "ok":
+            faults["caller_mutates_result"] += 1
         if failed_add:
             probes["failed_add_then_lookup"] += 1
         if "dialect" in op:
